@@ -163,7 +163,8 @@ func (stream *receiverStream) generateReport(now time.Time) *rtcp.ReceiverReport
 						return 0
 					}
 
-					return uint32(now.Sub(stream.lastSenderReportTime).Seconds() * 65536)
+					// a sender report stamped after this tick took its time arrived just now, not 18 hours ago
+					return uint32(max(now.Sub(stream.lastSenderReportTime), 0).Seconds() * 65536)
 				}(),
 				Jitter: uint32(stream.jitter),
 			},
